@@ -202,6 +202,23 @@ NOTES = {
     "C14-g": ("final length test measures the whole destination vector, not the name just appended", "caught at once"),
     "C16-g": ("error objects handed out from a global free list; a failing call without an error pointer recycles the thread's object while the thread keeps using it", "first run: the inventory obligation broke and the search reported a hang of the 131073-thread case; added failing calls made without an error pointer to the schedules (step kind n) - now caught with a proper input"),
     "C17-g": ("C table set_name memoises the last conversion under the concatenation of text name and raw zone", "first run: only the inventory obligation broke (no-failing-input-found); added set_name pairs whose two arguments concatenate to the same bytes with the boundary moved by one (operation PF: parse + one table call) - now caught"),
+    "C01-h": ("debug assertion adding the three record counts in 16 bits: well-formed packets with more than 65535 records in all panic in debug builds", "first run: only the regenerated panic-site inventory broke (no-failing-input-found); added packets of 65536+ records across two or three sections (implementation only - 770 KB - with the independent decoder as the expectation) - now caught with an input"),
+    "C02-h": ("barrier after a pointer = position of the pointer, not the start of its segment: a name whose pointer target runs forward into the name itself is accepted", "caught at once (pointer layouts landing inside the current name)"),
+    "C04-h": ("qtype_qclass() with a cold cache measures the question name after decompression: wrong type and class for a question written through a header pointer", "caught at once (header-pointer family, getter orders)"),
+    "C05-h": ("decompression refuses outputs larger than 32 times the input: NS / CNAME / PTR records whose owner and data are pointers to a maximal name expand up to 37 times", "MISSED at first (largest generated ratio about 20); added the largest expansions there are - a maximal question name and 60..125 records of pointer owner + pointer data of each name-bearing type, 2 KB in, up to 64 KB out - now caught"),
+    "C06-h": ("name comparison folds '[' to '{' (off-by-one range in a hand-written lower-caser): srv{1 becomes a pointer to srv[1", "caught at once (labels over punctuation next to letters)"),
+    "C07-h": ("dictionary accepts offset 16384 exactly: a pointer to it is written as c0 00", "caught at once (renames of packets that cross 16 KB)"),
+    "C08-h": ("resize_rr shifts offset_edns when it equals the record's offset (>= instead of >): an OPT without options followed by the record changed", "caught at once (view against fresh parse: 'ed' differs)"),
+    "C09-h": ("TXT builder refuses exactly 3825 bytes (>= instead of >)", "MISSED at first (histories never used the boundary shapes of the synthesis grammar); one insertion in eight now does (maximal names, TXT of 255 / 3570 / 3825 bytes) - now caught; C13 reported it at once"),
+    "C10-h": ("refused whole-packet rename leaves may-be-compressed set: every later operation on a question-less or QR-gated object then fails", "MISSED at first; added refused renames followed by recompute / insertions on question-less objects, and the oracle clause 'a failing call that moved no byte changed nothing else of the object either' (the flag may only go from set to clear: the first version of the clause raised a false alarm on the decompress-first prologue, corrected before commit) - now caught"),
+    "C11-h": ("resize_rr fast path for a trailing record skips clearing the cached question: deleted question still reported", "caught at once (getter before and after the deletion of the question)"),
+    "C12-h": ("set_response is a no-op on a packet of exactly 12 bytes", "caught at once (flag sweep on the empty object)"),
+    "C13-h": ("RDATA limit 65536 instead of 65535: a DS digest of 65532 bytes gives a record whose length field wrapped to 0", "caught at once (DS digests around the 16-bit limit)"),
+    "C14-h": ("wire-to-text escapes a backslash as \\092 while text-to-wire copies it", "MISSED at first (read-back went through set_raw_name, which refuses such labels); added read-back through RR::new + insert_rr for names over backslash, quote, space, control bytes, 127, 128 and upper case - now caught"),
+    "C15-f": ("C table rr_ip requires a 16-byte buffer for an A record (written by the agent given C03's text)", "caught at once by C15 (the C driver hands in exactly 4 bytes against a guard page); kept under C15, whose facade it breaks"),
+    "C16-h": ("throw_err returns early when the slot handed in already points to an error with the same text: the slot keeps pointing at another thread's object", "MISSED at first; added failing calls whose error slot still holds the pointer another thread obtained (step x), with equal and different texts - now caught"),
+    "C17-h": ("suffix table moved into a thread-local shared by all SuffixDict values of a thread", "first run: only the regenerated inventory broke (no-failing-input-found); added the public name emitter with two caller-owned dictionaries used alternately on one thread (operation DD) - now caught with an input"),
+    "C18-h": ("EDNS option list walked again after every additional record that follows the OPT record", "first run: no failing input (no packet had options and records after them); added packets with half their bytes in the options of an OPT record that comes first or in the middle and half in records after it - now caught (step count differs from the model's and exceeds the bound)"),
     "C17-c": ("compress() output built in a thread-local scratch buffer that is not cleared above 64 KiB of capacity", "first run: only the regenerated inventory obligation broke; added small operations right after 33 .. 65 KB ones - now caught with an input"),
 }
 
